@@ -32,8 +32,10 @@ every interleaving of production, header submission, data submission (any DA ans
 (clean, or a crash between two actions) from a fresh start: both watermarks lie in `[initialHeight − 1, chain height]`
 (`NewManager` starts them at `initialHeight − 1`: heights below the initial height do not exist and are not counted);
 every committed height `initialHeight ≤ h ≤ hdrWm` is a stored block whose header blob the DA double holds; and every
-height of `(hdrWm, height]` is a committed block.  Hence `height − hdrWm` is exactly the number of committed headers the
-DA layer has not yet acknowledged, it is at most the number `height − (initialHeight − 1)` of committed blocks — and
+height of `(hdrWm, height]` is a committed block; every committed height `initialHeight ≤ h ≤ dataWm` is an empty block
+or a block whose signed data the DA double holds.  Hence `height − hdrWm` is exactly the number of committed headers the
+DA layer has not yet acknowledged, `height − dataWm` the number of committed blocks the data loop has not yet passed
+(non-empty ones waiting for acceptance, and the empty ones among and after them — `C08_counters_clear`), it is at most the number `height − (initialHeight − 1)` of committed blocks — and
 when production is refused, that number, or the corresponding data counter, has reached the limit.
 (Until /repo 6924f89 the counters of a chain with initial height `I > 1` started at `I − 1` "pending" blocks that do not
 exist — finding `C08/refuses/initial-height-counted-as-pending`, fixed — and this theorem needed `initialHeight = 1`.) -/
@@ -45,6 +47,8 @@ theorem C08_refusal_counts_unacknowledged (c : Cfg) (h1 : 1 ≤ c.initialHeight)
       (dh, false, h) ∈ a.daBlobs) ∧
     (∀ h, a.n.hdrWm < h → h ≤ a.n.store.height →
       c.initialHeight ≤ h ∧ ∃ b, a.n.store.getBlock h = some b ∧ b.sh.hdr.height = h) ∧
+    (∀ h, c.initialHeight ≤ h → h ≤ a.n.dataWm → ∃ b, a.n.store.getBlock h = some b ∧
+      (b.data.txs = [] ∨ ∃ dh, (dh, true, h) ∈ a.daBlobs)) ∧
     (a.n.store.height - a.n.hdrWm ≤ a.n.store.height - (c.initialHeight - 1) ∧
      a.n.store.height - a.n.dataWm ≤ a.n.store.height - (c.initialHeight - 1)) ∧
     (pendingRefuses c a.n = true → c.maxPending ≠ 0 ∧
@@ -54,7 +58,7 @@ theorem C08_refusal_counts_unacknowledged (c : Cfg) (h1 : 1 ≤ c.initialHeight)
   have l1 := r.low
   have l2 := r.dlow
   have hok := hdrOK_of_inv r.pinv r.low
-  exact ⟨⟨by omega, r.le⟩, ⟨by omega, r.dle⟩, r.acc, fun h k1 k2 => ⟨by omega, hok h k1 k2⟩, ⟨by omega, by omega⟩,
+  exact ⟨⟨by omega, r.le⟩, ⟨by omega, r.dle⟩, r.acc, fun h k1 k2 => ⟨by omega, hok h k1 k2⟩, r.dacc, ⟨by omega, by omega⟩,
     refusal_needs_limit c _⟩
 
 /-- in particular **a freshly started node is never refused for blocks that do not exist**: with any limit ≥ 1 and any
@@ -91,76 +95,6 @@ theorem C08_header_counter_clears (a : ANode) (fails tail : List DAAns)
 
 /-! ## liveness, data half -/
 
-/-- full statement: with a DA layer that accepts, after one header iteration and one data iteration production is not
-refused — for every chain, in particular an idle one that produces only empty blocks -/
-def C08_data_full : Prop :=
-  ∀ (c : Cfg) (rs : List (SeqResp × ExecResp)), 1 ≤ c.initialHeight →
-    pendingRefuses c (runOps { freshA c with n := run c (freshNode c) rs } [.subH [], .subD []]).n = false
-
-def zCfg : Cfg := { chainId := "w", initialHeight := 1, genesisTime := 100, proposerAddr := [1], key := 1,
-                    signerAddr := [1], maxPending := 3 }
-/-- an idle chain: three empty blocks -/
-def zRun : List (SeqResp × ExecResp) := [(.batch [] 150 [], .ok), (.batch [] 200 [], .ok), (.batch [] 300 [], .ok)]
-def zNode : ANode := runOps { freshA zCfg with n := run zCfg (freshNode zCfg) zRun } [.subH [], .subD []]
-
-/-- the witness, evaluated by the kernel: limit 3, three empty blocks; the header iteration brings `hdrWm` to 3, the
-data iteration is skipped and leaves `dataWm = 0`; production is refused -/
-theorem zNode_facts : zNode.n.store.height = 3 ∧ zNode.n.hdrWm = 3 ∧ zNode.n.dataWm = 0 ∧
-    pendingRefuses zCfg zNode.n = true ∧
-    ∀ h ∈ [1, 2, 3], (zNode.n.store.getBlock h).map (·.data.txs) = some [] := by
-  decide +kernel
-
-/-- **The idle chain is dead**: production is refused, no header is pending, all blocks above the data watermark are
-empty -/
-theorem zNode_dead : Dead zCfg zNode := by
-  obtain ⟨h1, h2, h3, h4, h5⟩ := zNode_facts
-  refine ⟨h4, by omega, ?_⟩
-  intro h ha hb
-  have hm : h ∈ [1, 2, 3] := by simp; omega
-  have := h5 h hm
-  cases hg : zNode.n.store.getBlock h with
-  | none => rw [hg] at this; simp at this
-  | some b => rw [hg] at this; exact ⟨b, rfl, by simpa using this⟩
-
-/-- **An idle chain deadlocks at the limit, for ever** (recorded finding `C08/…/empty-blocks-pending-data`): after
-three empty blocks with limit 3, whatever the sequencer offers, whatever the DA layer answers and however production,
-header submission, data submission and inclusion are interleaved, production stays refused and the chain height stays 3. -/
-theorem C08_idle_chain_deadlocks (acts : List Act) :
-    pendingRefuses zCfg (runA zCfg zNode acts).n = true ∧ (runA zCfg zNode acts).n.store.height = 3 := by
-  obtain ⟨d, h⟩ := zNode_dead.forever acts
-  exact ⟨d.refuses, h.trans zNode_facts.1⟩
-
-/-- **The full statement is false of the current code.** -/
-theorem C08_data_full_fails : ¬ C08_data_full := by
-  intro h
-  have h1 : pendingRefuses zCfg zNode.n = false := h zCfg zRun (by decide)
-  rw [zNode_facts.2.2.2.1] at h1
-  cases h1
-
-/-- the general reason: **when all blocks above the data watermark are empty, a data iteration is skipped and changes
-nothing** — empty blocks are counted as pending data and never leave the count -/
-theorem C08_empty_blocks_never_leave_the_count (a : ANode) (script : List DAAns)
-    (h : ∀ k, a.n.dataWm < k → k ≤ a.n.store.height → ∃ b, a.n.store.getBlock k = some b ∧ b.data.txs = []) :
-    (dataIter a script).1 = a ∧ (dataIter a script).2.1 = [] ∧ (dataIter a script).2.2.1 = [] :=
-  dataIter_idle h script
-
-/-- and such a node at the limit with no header pending refuses production for ever -/
-theorem C08_dead_for_ever {c : Cfg} {a : ANode} (d : Dead c a) (acts : List Act) :
-    pendingRefuses c (runA c a acts).n = true ∧ (runA c a acts).n.store.height = a.n.store.height :=
-  ⟨(d.forever acts).1.refuses, (d.forever acts).2⟩
-
-/-- **Partial statement** (everything except the refuted case): if the last block is non-empty — and the blocks of the
-pending range carry their height in the data metadata, as the producer writes it — then after one data iteration
-against an accepting DA layer `dataWm = height`; together with the header half neither counter keeps production refused. -/
-theorem C08_data_partial (a : ANode) (fails tail : List DAAns)
-    (htail : tail.headD (.ok none) = .ok none) (hnc : DAAns.canceled ∉ fails) (hf : fails.length < maxSubmitAttempts)
-    (hok : ∀ h, a.n.dataWm < h → h ≤ a.n.store.height → ∃ b, a.n.store.getBlock h = some b ∧
-      (b.data.txs ≠ [] → dataHeight b = h))
-    (hlt : a.n.dataWm < a.n.store.height)
-    (hlast : ∀ b, a.n.store.getBlock a.n.store.height = some b → b.data.txs ≠ []) :
-    (dataIter a (fails ++ tail)).1.n.dataWm = (dataIter a (fails ++ tail)).1.n.store.height :=
-  dataIter_reaches a fails tail htail hnc hf hok hlt hlast
-
 theorem C08_no_refusal_when_both_clear (c : Cfg) (n : Node) (h1 : n.hdrWm = n.store.height)
     (h2 : n.dataWm = n.store.height) : pendingRefuses c n = false := by
   unfold pendingRefuses
@@ -169,6 +103,121 @@ theorem C08_no_refusal_when_both_clear (c : Cfg) (n : Node) (h1 : n.hdrWm = n.st
   · have : ¬ (n.store.height - n.hdrWm ≥ c.maxPending) := by omega
     have : ¬ (n.store.height - n.dataWm ≥ c.maxPending) := by omega
     simp [*]
+
+/-- **Both counters return to 0 within three ticks**, for every initial height ≥ 1, every limit, every mix of empty
+and non-empty blocks (all-empty included).  Let `a` be any node reached from a fresh start by any interleaving of
+production, submission ticks (any DA answers), inclusion passes and restarts.  After one header tick and one data tick
+against a DA layer that accepts after fewer than 30 non-cancellation failures, and one more data tick (whatever the DA
+layer answers — it is not asked: only empty blocks are left above the data watermark), `hdrWm = dataWm = chain height`:
+both pending counters are 0 and production is not refused, whatever `maxPending` is.  The second data tick is the one that
+passes the empty blocks that follow the last non-empty block (the watermark must not move over them before the data in
+front of them is accepted: `C06_data_sound`). -/
+theorem C08_counters_clear (c : Cfg) (h1 : 1 ≤ c.initialHeight) (acts : List ActR)
+    (fh th fd td s2 : List DAAns)
+    (hth : th.headD (.ok none) = .ok none) (hnh : DAAns.canceled ∉ fh) (hfh : fh.length < maxSubmitAttempts)
+    (htd : td.headD (.ok none) = .ok none) (hnd : DAAns.canceled ∉ fd) (hfd : fd.length < maxSubmitAttempts) :
+    let a := runR c (freshA c) acts
+    let a3 := runOps a [.subH (fh ++ th), .subD (fd ++ td), .subD s2]
+    a3.n.store.height = a.n.store.height ∧
+    a3.n.store.height - a3.n.hdrWm = 0 ∧ a3.n.store.height - a3.n.dataWm = 0 ∧
+    pendingRefuses c a3.n = false := by
+  intro a a3
+  have r : R c a := (R_fresh c h1).run acts
+  have r1 : R c (headersIter a (fh ++ th)).1 := r.step (.subH (fh ++ th))
+  have hh := (headersIter_reaches a fh th hth hnh hfh (hdrOK_of_inv r.pinv r.low) r.le).1
+  obtain ⟨_, i1, _⟩ := headersIter_iter a (fh ++ th)
+  obtain ⟨_, i2, _⟩ := dataIter_iter (headersIter a (fh ++ th)).1 (fd ++ td)
+  obtain ⟨_, i3, _⟩ := dataIter_iter (dataIter (headersIter a (fh ++ th)).1 (fd ++ td)).1 s2
+  have hd := data_two_ticks (headersIter a (fh ++ th)).1 fd td s2 htd hnd hfd (r1.toD.dataOK r1.dlow) r1.dle
+  have e3 : a3 = (dataIter (dataIter (headersIter a (fh ++ th)).1 (fd ++ td)).1 s2).1 := rfl
+  have hht : a3.n.store.height = a.n.store.height := by
+    rw [e3, i3.frame.height, i2.frame.height, i1.frame.height]
+  have hhw : a3.n.hdrWm = a3.n.store.height := by
+    have q3 : a3.n.hdrWm = (dataIter (headersIter a (fh ++ th)).1 (fd ++ td)).1.n.hdrWm := by rw [e3]; exact i3.frame.otherWm
+    have q2 : (dataIter (headersIter a (fh ++ th)).1 (fd ++ td)).1.n.hdrWm = (headersIter a (fh ++ th)).1.n.hdrWm :=
+      i2.frame.otherWm
+    rw [q3, q2, hh, hht, i1.frame.height]
+  have hdw : a3.n.dataWm = a3.n.store.height := by rw [e3]; exact hd
+  exact ⟨hht, by omega, by omega, C08_no_refusal_when_both_clear c a3.n hhw hdw⟩
+
+/-- the statement of the earlier rounds, with the tick count made explicit: with a DA layer that accepts, after one header
+iteration and two data iterations production is not refused — for every chain, in particular an idle one that produces
+only empty blocks, every limit, every initial height ≥ 1 -/
+def C08_data_full : Prop :=
+  ∀ (c : Cfg) (rs : List (SeqResp × ExecResp)), 1 ≤ c.initialHeight →
+    pendingRefuses c (runOps { freshA c with n := run c (freshNode c) rs } [.subH [], .subD [], .subD []]).n = false
+
+theorem runA_produce (c : Cfg) (a : ANode) (rs : List (SeqResp × ExecResp)) :
+    runA c a (rs.map fun r => .produce r.1 r.2) = { a with n := run c a.n rs } := by
+  induction rs generalizing a with
+  | nil => rfl
+  | cons r rs ih => exact ih _
+
+/-- **it holds now** (until /repo 5533199 an idle chain deadlocked at the limit: finding
+`C08/refuses/empty-blocks-counted-as-pending-data`, fixed; it was refuted by the witness below) -/
+theorem C08_data : C08_data_full := by
+  intro c rs hpos
+  have h := (C08_counters_clear c hpos ((rs.map fun r => Act.produce r.1 r.2).map .act) [] [] [] [] [] rfl (by simp)
+    (by decide) rfl (by simp) (by decide)).2.2.2
+  rw [runR_act, runA_produce] at h
+  exact h
+
+def zCfg : Cfg := { chainId := "w", initialHeight := 1, genesisTime := 100, proposerAddr := [1], key := 1,
+                    signerAddr := [1], maxPending := 3 }
+/-- an idle chain: three empty blocks -/
+def zRun : List (SeqResp × ExecResp) := [(.batch [] 150 [], .ok), (.batch [] 200 [], .ok), (.batch [] 300 [], .ok)]
+def zStuck : ANode := { freshA zCfg with n := run zCfg (freshNode zCfg) zRun }
+def zNode : ANode := runOps zStuck [.subH [], .subD []]
+
+/-- **The idle chain that deadlocked for ever (former `C08_idle_chain_deadlocks`) resumes**, evaluated by the kernel:
+limit 3, three empty blocks, production refused; the header tick brings `hdrWm` to 3 and the data tick — which submits
+nothing — brings `dataWm` to 3 (persisted); production is no longer refused and the next block is committed. -/
+theorem C08_old_witness_no_longer_deadlocks :
+    pendingRefuses zCfg zStuck.n = true ∧
+    zNode.n.store.height = 3 ∧ zNode.n.hdrWm = 3 ∧ zNode.n.dataWm = 3 ∧
+    zNode.n.store.getMeta Submit.dataWmKey = some (le64 3) ∧
+    (dataIter (headersIter zStuck []).1 []).2.2.1.length = 0 ∧
+    pendingRefuses zCfg zNode.n = false ∧
+    (runA zCfg zNode [.produce (.batch [] 400 []) .ok]).n.store.height = 4 := by
+  decide +kernel
+
+/-- trailing empty blocks after a block with transactions (limit 4, blocks: genesis, one transaction, empty, empty): the
+first accepting data tick submits the data of block 2 and stops there, the second passes blocks 3 and 4 -/
+def tRun : List (SeqResp × ExecResp) :=
+  [(.batch [] 150 [], .ok), (.batch [[7]] 200 [], .ok), (.batch [] 300 [], .ok), (.batch [] 400 [], .ok)]
+def tCfg : Cfg := { zCfg with maxPending := 4 }
+def tNode : ANode := { freshA tCfg with n := run tCfg (freshNode tCfg) tRun }
+
+example : pendingRefuses tCfg tNode.n = true ∧
+    (runOps tNode [.subH [], .subD []]).n.dataWm = 2 ∧
+    (runOps tNode [.subH [], .subD []]).daBlobs.map (fun e => (e.2.1, e.2.2)) = [(true, 2), (false, 4), (false, 3), (false, 2), (false, 1)] ∧
+    (runOps tNode [.subH [], .subD [], .subD [.error]]).n.dataWm = 4 ∧
+    (runOps tNode [.subH [], .subD [], .subD [.error]]).daBlobs.length = 5 := by
+  decide +kernel
+
+/-- **the watermark does not move over empty blocks while data in front of them is unaccepted** (what the seeded change
+C06-A did): with the data of block 2 refused by the DA layer the data watermark stays at 0 through any number of ticks -/
+example : (runOps tNode [.subH [], .subD [.canceled], .subD [.error, .canceled], .subD [.ok (some 0), .canceled]]).n.dataWm = 0 := by
+  decide +kernel
+
+/-- the general reason: **when all blocks above the data watermark are empty, a data iteration submits nothing and ends
+with `dataWm = chain height`** -/
+theorem C08_empty_blocks_leave_the_count (a : ANode) (script : List DAAns)
+    (hok : ∀ h, a.n.dataWm < h → h ≤ a.n.store.height → ∃ b, a.n.store.getBlock h = some b ∧ dataHeight b = h)
+    (hle : a.n.dataWm ≤ a.n.store.height)
+    (h : ∀ k, a.n.dataWm < k → k ≤ a.n.store.height → ∃ b, a.n.store.getBlock k = some b ∧ b.data.txs = []) :
+    (dataIter a script).1.n.store.height - (dataIter a script).1.n.dataWm = 0 ∧ (dataIter a script).2.2.1 = [] := by
+  obtain ⟨h1, h2⟩ := dataIter_idle_reaches h hok hle script
+  exact ⟨by omega, h2⟩
+
+/-- **one accepting data tick is enough when the last block is non-empty** (the former partial statement) -/
+theorem C08_data_partial (a : ANode) (fails tail : List DAAns)
+    (htail : tail.headD (.ok none) = .ok none) (hnc : DAAns.canceled ∉ fails) (hf : fails.length < maxSubmitAttempts)
+    (hok : ∀ h, a.n.dataWm < h → h ≤ a.n.store.height → ∃ b, a.n.store.getBlock h = some b ∧ dataHeight b = h)
+    (hlt : a.n.dataWm < a.n.store.height)
+    (hlast : ∀ b, a.n.store.getBlock a.n.store.height = some b → b.data.txs ≠ []) :
+    (dataIter a (fails ++ tail)).1.n.dataWm = (dataIter a (fails ++ tail)).1.n.store.height :=
+  dataIter_reaches a fails tail htail hnc hf hok hlt hlast
 
 /-! ## non-vacuity -/
 
@@ -182,11 +231,7 @@ example : pendingRefuses zCfg vNode.n = true ∧
     pendingRefuses zCfg (runOps vNode [.subH [], .subD []]).n = false := by
   decide +kernel
 
-example : ∀ h ∈ [1, 2, 3], (vNode.n.store.getBlock h).map (fun b => decide (b.data.txs ≠ [] → dataHeight b = h)) = some true := by
-  decide +kernel
-
-/-- the deadlocked node really is at the limit with everything the DA layer could accept accepted -/
-example : zNode.daBlobs.map (fun e => (e.2.1, e.2.2)) = [(false, 3), (false, 2), (false, 1)] := by
+example : ∀ h ∈ [1, 2, 3], (vNode.n.store.getBlock h).map (fun b => decide (dataHeight b = h)) = some true := by
   decide +kernel
 
 end Spec.C08
